@@ -63,6 +63,16 @@ def examine_round(case):
         return [V('round-up', ['round_up', 'unparseable'], case, t, str(want))]
     if got != want:
         return [V('round-up', ['round_up', 'value', 'below' if got < want else 'above'], case, t, str(want))]
+    if case.get('ambient'):
+        # the answer is a matter of the digits written: settings of the surrounding program (the decimal module's working
+        # precision / rounding mode, which other code may have lowered or changed) must not enter into it
+        import decimal
+        with decimal.localcontext() as c_:
+            c_.prec = 5
+            c_.rounding = decimal.ROUND_DOWN
+            r2 = call(athlib.round_up_str_num, s, prec)
+        if r2[:2] != r[:2]:
+            return [V('round-up', ['round_up', 'depends-on-decimal-context'], case, r2[:3], t)]
     return []
 
 
@@ -83,6 +93,8 @@ def shard_round(ctx, payload):
                 pass
             for prec in range(6):
                 case = {'kind': 'round', 's': s, 'prec': prec}
+                if len(f) >= 4 and (len(s) + prec) % 5 == 0:
+                    case['ambient'] = True
                 ctx.count()
                 vs = examine_round(case)
                 if vs:
@@ -336,6 +348,12 @@ def run(ctx):
     ints = ['']
     for n in range(1, 5):
         ints += [''.join(p) for p in itertools.product(INT_DIGITS, repeat=n)]
+    # (integer parts far longer than any time - 20 to 45 digits - keep the same exact meaning)
+    rng0 = random.Random(derive_seed(ctx.seed, 'C06-long-ints'))
+    for _ in range(12 if thorough else 4):
+        n = rng0.randrange(20, 46)
+        ints.append(rng0.choice('123456789') + ''.join(rng0.choice('0123456789') for _ in range(n - 1)))
+    ints.append('9' * 30)
     run_shards(ctx, 'checks.c06', 'shard_round', [(i, thorough) for i in ints], disjoint=True)
     # (b)
     rng = random.Random(derive_seed(ctx.seed, 'C06-boundaries'))
